@@ -3,4 +3,6 @@ package main
 func moreFacts() {
 	fuseROFacts()
 	walFacts()
+	c20Facts()
+	c16Facts()
 }
